@@ -124,6 +124,9 @@ def build(kind, u, shared=None):
             rows.append(dict(ID=ind, Time=0.25 * ind, Observable=np.nan, Value=np.nan, Dose=1.5 * ind, Duration=0.25))
         frame = pd.DataFrame(rows)
         c = chi.ProblemModellingController(u['mech'], [u['ems'][0].get_error_model(), u['ems'][1]])
+        # (a second controller of the user's, built from the SAME models with the outputs listed the other way round and thrown
+        # away: constructing it configures ITS copy of the mechanistic model, not the user's object)
+        chi.ProblemModellingController(u['mech'], [u['ems'][1], u['ems'][0].get_error_model()], outputs=[OUTS[1], OUTS[0]])
         c.fix_parameters({OUTS[0] + ' Sigma rel.': REL[1]})
         c.set_data(frame, output_observable_dict={OUTS[0]: 'obs0', OUTS[1]: 'obs1'})
         c.set_log_prior(prior(6))
